@@ -34,6 +34,7 @@ VOCAB = [
     "// c", "a // c", "// c \\", "a \\", "\\", "  \\", "/", "/ \\", "a / \\", "/\\", "\"s\"", "\"/* s */\"", "\"// s\" a",
     "\"a\\\"b // c\"", "\"a \\", "b\"", "'c'", "'\"'", "'\\''", "'/*'", "'//'", "#a", "# a \\", "#", "  # a", "#a /* open",
     "#a // c", "/* c */ #a", "a #a", "\"s\" #", "a' '", "' '", "\t", "\ta\t", "*/ /*",
+    "#a /* c *", "* d */ b", "/* x *", "// x \\\\", "\"a\\\\", "  /* i", "   */ #a",
 ]
 
 
@@ -144,15 +145,22 @@ def shrink(text, still_bad, budget=300):
     return text
 
 
-def is_bad(text):
+def bad_signature(text):
+    """None if the text is ill-formed or CBI agrees; else a signature of how it fails."""
     ref = cscan.scan(text)
     if not ref.valid:
-        return False
+        return None
     try:
         obs = cbi_scan(text)
-    except Exception:
-        return True
-    return bool(compare(text, ref, obs))
+    except Exception as e:
+        return ("exception", type(e).__name__)
+    probs = compare(text, ref, obs)
+    return ("mismatch", probs[0]["kind"]) if probs else None
+
+
+def is_bad(text, signature=None):
+    sig = bad_signature(text)
+    return sig is not None and (signature is None or sig == signature)
 
 
 def classify(shrunk):
@@ -223,7 +231,8 @@ def check_text(ctx, text, cls, work, sample_rng, via_file=False):
     if dis:
         acc.oracle_disagreement(dis)
         return
-    sh = shrink(text, is_bad)
+    sig0 = bad_signature(text)
+    sh = shrink(text, (lambda t: is_bad(t, sig0)) if sig0 else is_bad)
     mech = classify(sh)
     acc.violated({"input": {"text": text}, "witness": {"shrunk": sh, "text": text, "problems": problems,
                                                          "reference": {"counted": ref.counted,
